@@ -329,9 +329,11 @@ inductive GlobRes
   | expanded (paths : List Str)
 deriving Repr
 
+/-- the dot-file rule of `Pattern::expand`: does the first piece that contributes any text start with a dot?
+(an empty quoted piece in front — `"".*` — is skipped) -/
 def firstStartsWithDot : List PatPiece → Bool
   | [] => false
-  | p :: _ => Pattern.startsWithDot p.str
+  | p :: r => if p.str.isEmpty then firstStartsWithDot r else Pattern.startsWithDot p.str
 
 /-- `Pattern::expand` for a pattern without `/`, in a directory whose entries are `names` -/
 def patExpand (opts : Opts) (names : List Str) (ps : List PatPiece) : GlobRes :=
